@@ -1,5 +1,5 @@
 use crate::{
-    geometry::Point,
+    geometry::{Dimensions, Point},
     primitives::{
         common::Scanline,
         rounded_rectangle::{RoundedRectangle, RoundedRectangleContains},
@@ -54,40 +54,56 @@ impl Iterator for Scanlines {
 
     fn next(&mut self) -> Option<Self::Item> {
         let columns = self.rounded_rectangle.columns.clone();
-        let y = self.rounded_rectangle.rows.next()?;
 
-        let x_start = if y < self.rounded_rectangle.straight_rows_left.start {
-            columns
-                .clone()
-                .find(|x| self.rounded_rectangle.top_left.contains(Point::new(*x, y)))
-        } else if y >= self.rounded_rectangle.straight_rows_left.end {
-            columns.clone().find(|x| {
-                self.rounded_rectangle
-                    .bottom_left
-                    .contains(Point::new(*x, y))
-            })
-        } else {
-            None
+        // Rows without any pixel inside the rounded rectangle (e.g. the outermost rows of very
+        // thin corners) are skipped instead of being returned as empty or full rows.
+        loop {
+            let y = self.rounded_rectangle.rows.next()?;
+
+            // If a corner contains no pixel in this row, the row starts (or ends) at the straight
+            // part between the corners.
+            let x_start = if y < self.rounded_rectangle.straight_rows_left.start {
+                let corner = &self.rounded_rectangle.top_left;
+
+                columns
+                    .clone()
+                    .find(|x| corner.contains(Point::new(*x, y)))
+                    .unwrap_or_else(|| corner.bounding_box().columns().end)
+            } else if y >= self.rounded_rectangle.straight_rows_left.end {
+                let corner = &self.rounded_rectangle.bottom_left;
+
+                columns
+                    .clone()
+                    .find(|x| corner.contains(Point::new(*x, y)))
+                    .unwrap_or_else(|| corner.bounding_box().columns().end)
+            } else {
+                columns.start
+            };
+
+            let x_end = if y < self.rounded_rectangle.straight_rows_right.start {
+                let corner = &self.rounded_rectangle.top_right;
+
+                columns
+                    .clone()
+                    .rfind(|x| corner.contains(Point::new(*x, y)))
+                    .map(|x| x + 1)
+                    .unwrap_or_else(|| corner.bounding_box().columns().start)
+            } else if y >= self.rounded_rectangle.straight_rows_right.end {
+                let corner = &self.rounded_rectangle.bottom_right;
+
+                columns
+                    .clone()
+                    .rfind(|x| corner.contains(Point::new(*x, y)))
+                    .map(|x| x + 1)
+                    .unwrap_or_else(|| corner.bounding_box().columns().start)
+            } else {
+                columns.end
+            };
+
+            if x_start < x_end {
+                return Some(Scanline::new(y, x_start..x_end));
+            }
         }
-        .unwrap_or(columns.start);
-
-        let x_end = if y < self.rounded_rectangle.straight_rows_right.start {
-            columns
-                .clone()
-                .rfind(|x| self.rounded_rectangle.top_right.contains(Point::new(*x, y)))
-        } else if y >= self.rounded_rectangle.straight_rows_right.end {
-            columns.clone().rfind(|x| {
-                self.rounded_rectangle
-                    .bottom_right
-                    .contains(Point::new(*x, y))
-            })
-        } else {
-            None
-        }
-        .map(|x| x + 1)
-        .unwrap_or(columns.end);
-
-        Some(Scanline::new(y, x_start..x_end))
     }
 }
 
